@@ -354,6 +354,50 @@ Definition file_read (w : world) (f : file) (off : Z) (len : nat) : world * out 
       let '(w, got, e) := read_loop (S len) w f len (sidx off) (eidx off len (length (f_secs f))) (soff off) [] in
       (w, ORes (Z.of_nat (length got)) (match e with ENone => success | _ => e end) got).
 
+(* writeToNewSectors, in its three stages.  Each stage returns the world, the
+   data not yet written, the next device sector (1-based), the next sector
+   index of the file and the error. *)
+
+(* first sector, when the write starts inside it: leading/trailing padding
+   comes from the hole source *)
+Definition wns_first (w : world) (f : file) (p : list N) (first si o : nat)
+    : world * list N * nat * nat * errk :=
+  if 0 <? o then
+    let '(w, lead, e) := read_hole w f o si 0 in
+    match e with
+    | ENone =>
+      let endw := o + length p in
+      let '(w, trail, e) :=
+        if endw <? ss then read_hole w f (ss - endw) si endw else (w, [], ENone) in
+      match e with
+      | ENone =>
+        let nw := Nat.min (length p) (ss - o) in
+        let '(w, _, e) := dev_write w (pred first) 0 (lead ++ firstn nw p ++ trail) in
+        (w, skipn nw p, S first, S si, e)
+      | _ => (w, p, first, si, e)
+      end
+    | _ => (w, p, first, si, e)
+    end
+  else (w, p, first, si, ENone).
+
+(* as many full sectors as possible, in one device write *)
+Definition wns_full (w : world) (p : list N) (sector idx : nat) : world * list N * nat * nat * errk :=
+  let full := length p / ss in
+  if 0 <? full then
+    let '(w, _, e) := dev_write w (pred sector) 0 (firstn (full * ss) p) in
+    (w, skipn (full * ss) p, sector + full, idx + full, e)
+  else (w, p, sector, idx, ENone).
+
+(* last sector, with trailing padding from the hole source *)
+Definition wns_last (w : world) (f : file) (p : list N) (sector idx : nat) : world * errk :=
+  if 0 <? length p then
+    let '(w, trail, e) := read_hole w f (ss - length p) idx (length p) in
+    match e with
+    | ENone => let '(w, _, e) := dev_write w (pred sector) 0 (p ++ trail) in (w, e)
+    | _ => (w, e)
+    end
+  else (w, ENone).
+
 (* writeToNewSectors: Some (bytesWritten, firstSector, sectorsAllocated) or the error *)
 Definition write_to_new_sectors (w : world) (f : file) (p : list N) (si o : nat)
     : world * (option (nat * nat * nat)) * errk :=
@@ -365,50 +409,17 @@ Definition write_to_new_sectors (w : world) (f : file) (p : list N) (si o : nat)
     let p := firstn (limit (length p) cnt o) p in
     let nwritten := length p in
     let fail w e := (free_contig w first cnt, None, e) in
-    (* first sector with leading padding *)
-    let '(w, p1, sector, idx, e1) :=
-      if 0 <? o then
-        let '(w, lead, e) := read_hole w f o si 0 in
-        match e with
-        | ENone =>
-          let endw := o + length p in
-          let '(w, trail, e) :=
-            if endw <? ss then read_hole w f (ss - endw) si endw else (w, [], ENone) in
-          match e with
-          | ENone =>
-            let nw := Nat.min (length p) (ss - o) in
-            let buf := lead ++ firstn nw p ++ trail in
-            let '(w, _, e) := dev_write w (pred first) 0 buf in
-            (w, skipn nw p, S first, S si, e)
-          | _ => (w, p, first, si, e)
-          end
-        | _ => (w, p, first, si, e)
-        end
-      else (w, p, first, si, ENone) in
+    let '(w, p1, sector, idx, e1) := wns_first w f p first si o in
     match e1 with
     | ENone =>
-      (* full sectors *)
-      let full := length p1 / ss in
-      let '(w, p2, sector, idx, e2) :=
-        if 0 <? full then
-          let '(w, _, e) := dev_write w (pred sector) 0 (firstn (full * ss) p1) in
-          (w, skipn (full * ss) p1, sector + full, idx + full, e)
-        else (w, p1, sector, idx, ENone) in
+      let '(w, p2, sector, idx, e2) := wns_full w p1 sector idx in
       match e2 with
       | ENone =>
-        (* last sector with trailing padding *)
-        if 0 <? length p2 then
-          let '(w, trail, e) := read_hole w f (ss - length p2) idx (length p2) in
-          match e with
-          | ENone =>
-            let '(w, _, e) := dev_write w (pred sector) 0 (p2 ++ trail) in
-            match e with
-            | ENone => (w, Some (nwritten, first, cnt), ENone)
-            | _ => fail w e
-            end
-          | _ => fail w e
-          end
-        else (w, Some (nwritten, first, cnt), ENone)
+        let '(w, e3) := wns_last w f p2 sector idx in
+        match e3 with
+        | ENone => (w, Some (nwritten, first, cnt), ENone)
+        | _ => fail w e3
+        end
       | _ => fail w e2
       end
     | _ => fail w e1
